@@ -66,6 +66,58 @@ CLAIMS = {
         ref="DESIGN.md 4.11", technique="Rocq proof by complete evaluation over finite constant families (vm_compute) + differential lexing + family replay on the implementation",
         note=NOTE + "Modelled: lexer.py completely. Partial: the theorems are for bounded digit strings (the property's quantifier is "
              "bounded too); longer constants are only tested."),
+    "C12": dict(
+        text="Theorems: (1) finite and complete over the source's own tables (regenerated on every run): every operator and "
+             "bracket in EVERY capture-free spelling of each of its characters (digraph, trigraph), followed by every class of "
+             "delimiter, is recognised as the same token kind and consumed whole; every PAIR of operators side by side gives the "
+             "same sequence of kinds in every spelling (longest match is spelling-independent) - by evaluating the lexer model "
+             "inside Coq; (2) unbounded: for every marked text of any length and any set of respelled occurrences that is "
+             "capture-free, the character stream the lexer's peek reads is the canonical text; (3) unbounded: a line splice of "
+             "either form in front of any text, in any lexer state, is skipped as one item with no token and no diagnostic.  "
+             "Not proved: the composition into equality of whole token sequences, and the diagnostics clause - both are searched: "
+             "random subsets of punctuator occurrences respelled and random subsets of token boundaries spliced in conforming / "
+             "violating programs and lexeme sequences, (kind, value) sequences compared; braces/brackets respelled in whole "
+             "programs, diagnostics compared in (code, line).",
+        ref="DESIGN.md 4.12", technique="Rocq proof (table sweeps by vm_compute, induction over marked texts, splice step lemma) + metamorphic search",
+        note=NOTE + "Partial: whole-file token equality and the diagnostics clause are tested, not proved."),
+    "C13": dict(
+        text="Theorems: the model's search decides the denotation of the header regular expression (for every pattern and text); "
+             "the expression of check_header.py, parsed with re's own parser on every run, is the eleven line patterns; the "
+             "translated run/parse_header/check_header (Gallina regenerated statement by statement from the source) emit "
+             "INVALID_HEADER at most once on EVERY statement trace; for ALL field values with date and time free of blanks and at "
+             "most 31 characters together the stdheader template text is accepted and its trace yields 0 diagnostics; for ALL "
+             "field values without newline or *, each mutation Hm1..Hm8 (first statement not a comment, // comments, one block, "
+             "any line removed, any frame width other than 74, any By/Created/Updated line not starting with its keyword) yields "
+             "exactly 1.  Recorded findings are refuted by witness.  Correspondence: the generated state machine replayed in Coq "
+             "on events recorded from CheckHeader.run, the regex model vs the source's compiled pattern, the template vs the "
+             "repository's sample header; search: field sets x mutations x bodies on the implementation.",
+        ref="DESIGN.md 4.13", technique="Rocq proof (verified regex matcher, counting lemmas, state machine translated from source) + event/regex correspondence + mutation search",
+        note=NOTE + "Tested, not proved: that lexer + IsComment cut template lines into one comment event per line; that Python's "
+             "backtracking re.search agrees with the denotation."),
+    "C17": dict(
+        text="Theorems: for every replacement accepted by replace_ok (same length, newline and tab positions kept, no backslash, own "
+             "quote, ? % : and no / in block comments) every observation form that the rules apply to a token's spelling is "
+             "unchanged; line-comment and string bodies of such characters lex to the value extended character by character "
+             "with identical columns (partial: block-comment and char loops, whole-file composition are tested).  The list of "
+             "observation forms is tied to the code: every syntactic read of a token's spelling in rules/*.py, context.py, "
+             "registry.py, scope.py, errors.py is regenerated on every run (fail-closed taint analysis) and proved covered by the "
+             "reviewed forms (a static analysis, trusted).  Refuted by witness: di/trigraph text inside comments (known "
+             "finding).  Search: comments and literals of conforming/violating programs replaced by code-like text, complete "
+             "diagnostics compared.",
+        ref="DESIGN.md 4.17", technique="Rocq proof (observation invariance + lexer loop lemmas) over a value-read table regenerated from source + metamorphic search",
+        note=NOTE + "Rests on the static value-read table (cannot see getattr tricks). Whole-file simulation is tested only."),
+    "C18": dict(
+        text="Theorems: for every renaming accepted by rename_ok (same length, number of capitals, lower-case presence, isupper, the "
+             "five prefixes; injective on the names of the file; never to or from a keyword, a special spelling or the guard "
+             "symbol) every observation form the rules apply to identifier spellings is unchanged, and an admissible renaming is "
+             "injective; the lexer model turns an identifier lexeme into one token spanning exactly it at the same position, and "
+             "two same-length non-keyword lexemes give the same token type, position and following state (partial: the "
+             "whole-file token simulation is tested).  Ties re-proved on every run over tables regenerated from the source: "
+             "every spelling read is covered, every literal a spelling is compared with is reviewed, the keyword table is the "
+             "reviewed one.  Search: consistent renamings (incl. near-keywords) of conforming/violating programs, complete "
+             "diagnostics and token streams compared.",
+        ref="DESIGN.md 4.18", technique="Rocq proof (observation invariance, identifier lexing lemma) over tables regenerated from source + metamorphic search",
+        note=NOTE + "Rests on the static value-read table (trusted). Whole-file simulation is tested only."),
     "C14": dict(
         text="Theorems (all base names whose File.type is .h, all comment/blank prefixes and suffixes, all bodies with properly nested "
              "conditionals, any statement trace): the correct guard (guard_of base = ASCII upper-casing and . -> _, proved equal to "
